@@ -554,7 +554,20 @@ func builtinIntercepts() map[string]intercept {
 	}
 	// ---- sync ----
 	nop := func(x *Exec, fn *ssa.Function, args []Value) []Value { return nil }
-	for _, n := range []string{"(*sync.Mutex).Lock", "(*sync.Mutex).Unlock", "(*sync.RWMutex).Lock", "(*sync.RWMutex).Unlock", "(*sync.RWMutex).RLock", "(*sync.RWMutex).RUnlock",
+	// accesses made while a mutex is held are not part of the unsynchronised footprints (race_check / CheckHB):
+	// the analyses decide races between unprotected accesses; lock discipline itself is not examined
+	for _, n := range []string{"(*sync.Mutex).Lock", "(*sync.RWMutex).Lock", "(*sync.RWMutex).RLock"} {
+		m[n] = func(x *Exec, fn *ssa.Function, args []Value) []Value { x.lockDepth++; return nil }
+	}
+	for _, n := range []string{"(*sync.Mutex).Unlock", "(*sync.RWMutex).Unlock", "(*sync.RWMutex).RUnlock"} {
+		m[n] = func(x *Exec, fn *ssa.Function, args []Value) []Value {
+			if x.lockDepth > 0 {
+				x.lockDepth--
+			}
+			return nil
+		}
+	}
+	for _, n := range []string{
 		"(*sync.WaitGroup).Add", "(*sync.WaitGroup).Done", "(*sync.Cond).Broadcast", "(*sync.Cond).Signal", "runtime.Gosched", "runtime.KeepAlive"} {
 		m[n] = nop
 	}
@@ -593,7 +606,10 @@ func builtinIntercepts() map[string]intercept {
 			return nil
 		}
 		x.write(p.Obj, p.Off, x.e.C.BV(d.(*smt.Term).W, 1))
+		// what Once.Do runs happens-before every later Do return: not part of any goroutine's footprint
+		x.lockDepth++
 		x.callClosure(args[1].(*Closure), nil)
+		x.lockDepth--
 		return nil
 	}
 	m["(*sync.Pool).Get"] = func(x *Exec, fn *ssa.Function, args []Value) []Value {
